@@ -160,44 +160,51 @@ Section Exec.
   Variable frs : list fragdef.
 
   (** executor.go collectFieldsImpl on an object of type [obj]; the state is (visitedFragments,
-      grouped fields so far) *)
-  Fixpoint collect (fuel : nat) (obj : name) (l : sels) (st : list name * list centry) {struct fuel}
-    : prog (option (list name * list centry)) :=
+      grouped fields so far).  [rec]: the same with less fuel, for the selection set of a fragment *)
+  Definition cstate := (list name * list centry)%type.
+
+  Section CollectStep.
+    Variable rec : name -> sels -> cstate -> prog (option cstate).
+
+    Fixpoint collect_go (obj : name) (l : sels) (st : cstate) {struct l} : prog (option cstate) :=
+      match l with
+      | SNil => Ret (Some st)
+      | SCons s r =>
+          let next (o : option cstate) := match o with Some st' => collect_go obj r st' | None => Ret None end in
+          let guarded (tc : name) (body : sels) (st' : cstate) :=
+            Ask (QNamedE tc) (fun an =>
+              match an with
+              | AHandle (Some h) =>
+                  Ask (QApplies obj h) (fun ab =>
+                    match ab with
+                    | ABool true => bind (rec obj body st') next
+                    | _ => collect_go obj r st'
+                    end)
+              | _ => collect_go obj r st'
+              end) in
+          match s with
+          | SField _ key f sub =>
+              collect_go obj r (fst st, snd st ++ [{| ce_key := key; ce_field := Some f; ce_sub := sub |}])
+          | STypename _ key =>
+              collect_go obj r (fst st, snd st ++ [{| ce_key := key; ce_field := None; ce_sub := SNil |}])
+          | SInline _ None sub => bind (rec obj sub st) next
+          | SInline _ (Some tc) sub => guarded tc sub st
+          | SSpread _ fr =>
+              if mem fr (fst st) then collect_go obj r st
+              else
+                let st' := (fr :: fst st, snd st) in
+                match find_frag frs fr with
+                | None => collect_go obj r st'
+                | Some d => guarded (fr_tc d) (fr_sels d) st'
+                end
+          end
+      end.
+  End CollectStep.
+
+  Fixpoint collect (fuel : nat) : name -> sels -> cstate -> prog (option cstate) :=
     match fuel with
-    | O => Ret None
-    | Datatypes.S n =>
-        (fix go (l : sels) (st : list name * list centry) {struct l} : prog (option (list name * list centry)) :=
-           match l with
-           | SNil => Ret (Some st)
-           | SCons s r =>
-               let next (o : option (list name * list centry)) :=
-                 match o with Some st' => go r st' | None => Ret None end in
-               let guarded (tc : name) (body : sels) (st' : list name * list centry) :=
-                 Ask (QNamedE tc) (fun an =>
-                   match an with
-                   | AHandle (Some h) =>
-                       Ask (QApplies obj h) (fun ab =>
-                         match ab with
-                         | ABool true => bind (collect n obj body st') next
-                         | _ => go r st'
-                         end)
-                   | _ => go r st'
-                   end) in
-               match s with
-               | SField _ key f sub => go r (fst st, snd st ++ [{| ce_key := key; ce_field := Some f; ce_sub := sub |}])
-               | STypename _ key => go r (fst st, snd st ++ [{| ce_key := key; ce_field := None; ce_sub := SNil |}])
-               | SInline _ None sub => bind (collect n obj sub st) next
-               | SInline _ (Some tc) sub => guarded tc sub st
-               | SSpread _ fr =>
-                   if mem fr (fst st) then go r st
-                   else
-                     let st' := (fr :: fst st, snd st) in
-                     match find_frag frs fr with
-                     | None => go r st'
-                     | Some d => guarded (fr_tc d) (fr_sels d) st'
-                     end
-               end
-           end) l st
+    | O => fun _ _ _ => Ret None
+    | Datatypes.S n => collect_go (collect n)
     end.
 
   Section Step.
@@ -264,10 +271,10 @@ Section Exec.
   End Step.
 
   (** executor.go executeSelections on an object of type [obj] *)
-  Fixpoint sexec (fuel : nat) (obj : name) (l : sels) (log : elog) {struct fuel} : prog eres :=
+  Fixpoint sexec (fuel : nat) : name -> sels -> elog -> prog eres :=
     match fuel with
-    | O => Ret None
-    | Datatypes.S n =>
+    | O => fun _ _ _ => Ret None
+    | Datatypes.S n => fun obj l log =>
         bind (collect n obj l ([], [])) (fun c =>
           match c with
           | None => Ret None
